@@ -17,7 +17,7 @@ func init() {
 		Assumptions: []string{"comparison constants lie within the index's range (32-bit index without negative values: [0, 2^BitCount); with negative values: int64; 64-bit index: [min,max] or the two's-complement range of its planes)", "found-sets contain existing columns only", "MinMax on an empty set returns a sentinel and is out of scope", "roaring64 TransposeWithCounts filters on VALUES and defaults the filter to the existence bitmap; an explicit filter is always passed"},
 		Units: []Unit{
 			{Name: "queries@plain,race", Quick: 8000, Thorough: 300000, Run: c20Queries},
-			{Name: "parallel-scan-32@plain", Quick: 2, Thorough: 40, Run: c20ParallelScan, Serial: true},
+			{Name: "parallel-scan-32@plain", Quick: 4, Thorough: 60, Run: c20ParallelScan, Serial: true},
 		},
 	})
 }
@@ -676,10 +676,19 @@ func c20ParallelScan(c *Ctx) {
 	r := c.R
 	x := bsi32.NewDefaultBSI()
 	const N = 100500
+	// three quarters of the indexes hold values of both signs (64 planes), the others non-negative values only
+	mixed := r.Chance(0.75)
+	gen := func(extra int) int64 {
+		v := int64(r.Intn(4000+extra)) * 977
+		if mixed {
+			v = int64(r.Intn(4000+extra)-2000-extra/2) * 977
+		}
+		return v
+	}
 	vals := make([]int64, N)
 	groups := map[int64]*roaring.Bitmap{}
 	for i := 0; i < N; i++ {
-		v := int64(r.Intn(4000)) * 977
+		v := gen(0)
 		vals[i] = v
 		if groups[v] == nil {
 			groups[v] = roaring.New()
@@ -689,18 +698,28 @@ func c20ParallelScan(c *Ctx) {
 	for v, cols := range groups {
 		x.SetMany(cols, v)
 	}
-	c.Step("BSI32 with %d columns, %d distinct scattered values", N, len(groups))
-	for q := 0; q < 3; q++ {
+	c.Step("BSI32 with %d columns, %d distinct scattered values, both signs=%v, BitCount=%d", N, len(groups), mixed, x.BitCount())
+	c.Count(fmt.Sprintf("parallel_scan_index_both_signs_%v", mixed))
+	for q := 0; q < 4; q++ {
 		var list []int64
 		in := map[int64]bool{}
+		// query lists: any sign, non-negative only, negative only
+		kind := []string{"any", "any", "nonneg", "neg"}[q]
+		if !mixed {
+			kind = "any"
+		}
 		for len(list) < 140+r.Intn(60) {
-			v := int64(r.Intn(4200)) * 977
+			v := gen(200)
 			if r.Chance(0.1) {
 				v += 1
+			}
+			if (kind == "nonneg" && v < 0) || (kind == "neg" && v >= 0) {
+				continue
 			}
 			list = append(list, v)
 			in[v] = true
 		}
+		c.Step("query list kind=%s (%d values)", kind, len(list))
 		want := roaring.New()
 		for i, v := range vals {
 			if in[v] {
